@@ -185,6 +185,20 @@ func c12Edits(root *tnode) []c12Edit {
 			case "struct", "ptrstruct", "slicestruct", "mapstruct":
 				out = append(out, c12Edit{desc: fmt.Sprintf("group-to-leaf %s.%s", path, f.name), class: "incompat:group-to-leaf:" + f.kind,
 					apply: replace(si, fi, leaf(f.name, "int32")), incompat: fpath})
+				if f.kind == "struct" || f.kind == "ptrstruct" {
+					// the group becomes repeated (one element, or none for a nil
+					// group), alone and together with a column added below it
+					rg := f.clone()
+					rg.kind = "slicestruct"
+					out = append(out, c12Edit{desc: fmt.Sprintf("group-to-repeated %s.%s", path, f.name), class: "incompat:group-to-repeated:" + f.kind,
+						apply: replace(si, fi, rg), incompat: fpath})
+					for _, a := range []*tnode{leaf("NewOpt", "ptrint64"), leaf("NewReq", "int32")} {
+						ra := rg.clone()
+						ra.fields = append([]*tnode{a}, ra.fields...)
+						out = append(out, c12Edit{desc: fmt.Sprintf("group-to-repeated+add %s.%s.%s", path, f.name, a.name), class: "incompat:group-to-repeated+add:" + f.kind + ":" + a.kind,
+							apply: replace(si, fi, ra), incompat: fpath})
+					}
+				}
 			}
 			if len(s.fields) > 1 {
 				out = append(out, c12Edit{desc: fmt.Sprintf("delete %s.%s", path, s.fields[fi].name), class: "delete:" + s.kind + ":" + s.fields[fi].kind, apply: func(r *tnode) {
@@ -317,7 +331,10 @@ func c12ZeroAt(v reflect.Value, path []string) {
 	}
 }
 
-var c12Paths = []string{"NewReader(schema)", "ConvertRowGroup", "CopyRows", "MergeRowGroups(schema)", "GenericReader[any](schema)"}
+var c12Paths = []string{"NewReader(schema)", "ConvertRowGroup", "CopyRows", "MergeRowGroups(schema)", "GenericReader[any](schema)",
+	// the merge planner's row-range view (rows [1, n-1)) of the converted row
+	// group: pages of added columns are sliced, and sliced again
+	"RangeView(ConvertRowGroup)"}
 
 func c12Run(x *engine.X) {
 	root := x.Choose(len(c12Sources)*len(c12Paths), "source*path")
@@ -444,6 +461,7 @@ func c12Run(x *engine.X) {
 		return fmt.Errorf("no EOF")
 	}
 	var rerr error
+	rangeView := 0 // >0: the path read rows [1, n-1) of n
 	crashed := false
 	func() {
 		defer func() {
@@ -488,6 +506,22 @@ func c12Run(x *engine.X) {
 					return
 				}
 			}
+		case "RangeView(ConvertRowGroup)":
+			conv, err := parquet.Convert(tgtSchema, f.Schema())
+			if err != nil {
+				rerr = err
+				return
+			}
+			rg := f.RowGroups()[0]
+			if len(f.RowGroups()) != 1 || rg.NumRows() < 3 {
+				rangeView = -1
+				return
+			}
+			rangeView = int(rg.NumRows())
+			view := parquet.VerifRowRange(parquet.ConvertRowGroup(rg, conv), 1, rg.NumRows()-2)
+			vr := view.Rows()
+			rerr = readRowsInto(vr)
+			vr.Close()
 		case "CopyRows":
 			var out bytes.Buffer
 			dw := parquet.NewWriter(&out, tgtSchema)
@@ -538,6 +572,12 @@ func c12Run(x *engine.X) {
 			rerr = readRowsInto(mrows)
 		}
 	}()
+	if rangeView < 0 {
+		return // fewer than 3 rows: no middle range
+	}
+	if rangeView > 0 {
+		rows = rows[1 : rangeView-1]
+	}
 	if len(incompat) > 0 {
 		// incompatible target: it must be rejected with an error, or at least
 		// every OTHER column must still be exactly the source's and the rows
